@@ -266,15 +266,6 @@ func vpRootValue() (v any, doc []byte) {
 	return a, append(doc, vpStr(a[1])...)
 }
 
-func vpASCII(s string) bool {
-	for i := 0; i < len(s); i++ {
-		if s[i] >= 0x80 {
-			return false
-		}
-	}
-	return true
-}
-
 // root values (no enclosing compound whose end tag would report a sticky failure
 // later): a writer failing at any offset, sticky or once, is an error.
 func VP_C09_failwrite_root() {
